@@ -329,10 +329,15 @@ class Model:
         slot = a[0] if k.endswith(('_async', '_init')) else None
         box = a[1] if slot else a[0]
         to = None
+        tag = want = None
         for x in a:
             if x.startswith('timeout='):
                 to = float(x[8:])
-        req = dict(key=key, side=side, mq=mq, box=box, blocking=slot is None and k != 'put_detach', slot=slot,
+            elif x.startswith('tag='):
+                tag = int(x[4:])
+            elif x.startswith('want='):
+                want = int(x[5:])
+        req = dict(tag=tag, want=want, key=key, side=side, mq=mq, box=box, blocking=slot is None and k != 'put_detach', slot=slot,
                    deadline=(self.now + to) if to is not None and to >= 0 else None, peer=None, posted=False,
                    gone=False, cancelled=False, payload=('%s.%d.%d' % key) if side == 's' else None,
                    expect_payload=None, detached=(k == 'put_detach'), post_clock=None)
@@ -370,6 +375,27 @@ class Model:
         mb = (self.mq if req['mq'] else self.mbox)[req['box']]
         mine, other = ('sends', 'recvs') if req['side'] == 's' else ('recvs', 'sends')
         q = mb[other]
+        if req.get('tag') is not None or req.get('want') is not None or \
+                any((o.get('tag') is not None or o.get('want') is not None) and not o['gone'] for o in q):
+            # match data / match filters in play: the oldest queued request of the other kind that both filters accept
+            def accepts(x, y):
+                return x.get('want') is None or (y.get('tag') is not None and y['tag'] == x['want'])
+            for o in list(q):
+                if o['gone']:
+                    q.remove(o)
+                    continue
+                if accepts(req, o) and accepts(o, req):
+                    q.remove(o)
+                    snd, rcv = (req, o) if req['side'] == 's' else (o, req)
+                    snd['peer'] = rcv['key']
+                    rcv['peer'] = snd['key']
+                    rcv['expect_payload'] = snd['payload']
+                    self.stats['mbox_filtered_match'] = self.stats.get('mbox_filtered_match', 0) + 1
+                    return
+            self.stats['mbox_filter_rejections'] = self.stats.get('mbox_filter_rejections', 0) + \
+                sum(1 for o in q if not o['gone'])
+            mb[mine].append(req)
+            return
         while q:
             o = q[0]
             if o['gone']:
